@@ -868,3 +868,191 @@ Proof.
     + eexists. split; [right; left; reflexivity|]. unfold f_off, f_endp, f_off. cbn [f_fo f_data].
       change (len [9; 10; 11]) with 3. lia.
 Qed.
+
+(* ==== round3 c11cut begin ==== *)
+(* ======================================================================
+   The FRAMES of a cut reassemble (audit round 3, top-12 item 6).
+   Defrag/CutFrames.v builds, from the wire formats alone, the frame that carries one fragment f
+   (offset field, more-fragments flag, data):
+     frame_v4 l h f = 12 MAC octets ++ 0..3 IEEE 802.1Q tags (any of the three TPIDs, any TCI) ++
+                      0x0800 ++ RFC 791 header (IHL 5; TOS, DF, TTL, protocol <> 51, checksum,
+                      addresses, identification free; total length, MF and offset from f) ++ data
+     frame_v6 l h f = ... ++ 0x86DD ++ RFC 8200 header (traffic class, flow label, hop limit,
+                      addresses free; payload length from f; next header 44) ++ fragment header
+                      (next header not an extension header, reserved bits free, offset and M
+                      from f, identification) ++ data
+   Restrictions of the builders (not of the crate): no IPv4 options, no MACsec SecTAG, the IPv6
+   fragment header directly behind the IPv6 header, IPv4 protocol <> 51 / IPv6 next header not
+   0, 43, 44, 51, 60 (the payload of a fragment is not parsed further).
+   ====================================================================== *)
+From EP Require Import Defrag.CutFrames Defrag.CutFramesProofs.
+
+(* the IPv4 frame of ANY fragment f (13 bit offset, 20 + length <= 65535, MF set or offset <> 0) is,
+   by the reference decoder, a fragment with wire id (VIDs of the tags, addresses, identification,
+   protocol, channel) carrying exactly f *)
+Theorem C11_frame_v4_decodes : forall l h f c,
+  link_ok l -> v4_ok h -> fits_v4 f -> is_fragmenting f = true ->
+  exists w, wire_frag_of EEthernet (frame_v4 l h f) c = Some w /\
+    wf_id w = id_v4 l h c /\ wf_v4 w = true /\ frag_of_wire (frame_v4 l h f) w = f.
+Proof. exact frame_v4_decodes. Qed.
+Print Assumptions C11_frame_v4_decodes.
+
+(* ... and the MODEL of the crate (SlicedPacket::from_ethernet, the key extraction at the start of
+   process_sliced_packet, the packet handed to the pool) decodes it to the same id and to f *)
+Theorem C11_frame_v4_model : forall l h f c,
+  link_ok l -> v4_ok h -> fits_v4 f -> is_fragmenting f = true ->
+  exists p k, slice_with EEthernet (frame_v4 l h f) = Ok p /\ frag_key_of p c = Ok (Some k) /\
+    pkt_of_key k = mkPkt (encode_id (id_v4 l h c)) true (v4_proto h) f /\
+    forall pl ts, process_sliced_packet pl p ts c =
+                  Ok (process pl (mkPkt (encode_id (id_v4 l h c)) true (v4_proto h) f) ts).
+Proof. exact frame_v4_model. Qed.
+Print Assumptions C11_frame_v4_model.
+
+(* the same for IPv6 with a fragment extension header *)
+Theorem C11_frame_v6_decodes : forall l h f c,
+  link_ok l -> v6_ok h -> fits_v6 f -> is_fragmenting f = true ->
+  exists w, wire_frag_of EEthernet (frame_v6 l h f) c = Some w /\
+    wf_id w = id_v6 l h c /\ wf_v4 w = false /\ frag_of_wire (frame_v6 l h f) w = f.
+Proof. exact frame_v6_decodes. Qed.
+Print Assumptions C11_frame_v6_decodes.
+
+(* every payload P <= 65535, every way of cutting it at multiples of 8 (`sizes`, at least two
+   non-trivial pieces: 0 < sumN sizes), every history `s` of received frames in which the frames of
+   datagram i are pieces of the cut -- in any order, any piece any number of times, each frame with
+   its own MACs / PCP / DEI / TTL / TOS / checksum / hop limit / flow label, IPv4 or IPv6 frames
+   (sched_ok: only the key fields are shared) -- interleaved with ANY other operations that are no
+   fragments of i (frames of other datagrams, unfragmented packets, garbage, buffer returns):
+   through slicing, key extraction and the pool model, nothing is returned for i while the pieces
+   delivered so far do not cover P, and the frame that delivers the last missing byte is answered
+   with P (protocol number of i), once.  No hypothesis about decoding is left: this discharges the
+   `frag_of P` hypothesis of C11_packets_complete. *)
+Theorem C11_cut_frames_reassemble : forall P sizes i s pl js0 jl tl,
+  len P <= 65535 -> sumN sizes * 8 <= len P -> 0 < sumN sizes ->
+  Forall (sched_ok i (cut_at P 0 sizes)) s ->
+  Defrag.Proofs.view (encode_id i) pl = None ->
+  sched_js s = js0 ++ [(jl, tl)] ->
+  (forall k, (k <= length js0)%nat ->
+     ~ Covered P (map (piece (cut_at P 0 sizes)) (firstn k (map fst js0)))) ->
+  Covered P (map (piece (cut_at P 0 sizes)) (map fst js0 ++ [jl])) ->
+  exists tr, pk_trace pl (realize (cut_at P 0 sizes) s) = Ok tr /\
+    answers_for (encode_id i) tr =
+      map (fun _ => PNone) js0 ++ [PDone (fi_ipn i) (id_is_v4 (fi_ip i)) (map Some P)].
+Proof. exact cut_frames_reassemble. Qed.
+Print Assumptions C11_cut_frames_reassemble.
+
+(* ---- non-vacuity ---- *)
+(* VLAN 5 with PCP 3 / DEI 1, and VLAN 5 plain with other MACs; two headers that differ in TOS, DF,
+   TTL and checksum but share addresses, identification 7 and protocol 17 *)
+Definition cfL1 : eth_link := mkEthLink [7;8;9;10;11;12;1;2;3;4;5;6] [(33024, 28677)].
+Definition cfL2 : eth_link := mkEthLink [12;11;10;9;8;7;6;5;4;3;2;1] [(33024, 5)].
+Definition cfH1 : v4_fields := mkV4F 0 false 64 17 0 [10;0;0;1] [10;0;0;2] 7.
+Definition cfH2 : v4_fields := mkV4F 184 true 3 17 4660 [10;0;0;1] [10;0;0;2] 7.
+
+(* the builder reproduces the hand-written frame exA1 of the packet-step examples *)
+Example C11_ex_frame_v4_bytes : frame_v4 cfL1 cfH1 (mkFrag 0 true [1;2;3;4;5;6;7;8]) = exA1.
+Proof. vm_compute. reflexivity. Qed.
+
+(* exP (19 octets) cut into 8 + 8 + 3; arrival order: piece 2, 1, 1 (duplicate), 0 -- with frames of
+   datagram B, an unfragmented packet, a buffer return and garbage in between *)
+Definition cfSched : list sched_item :=
+  [SFrame4 cfL1 cfH1 3 2 1; SOther (KPacket EEthernet exB1 2 3); SFrame4 cfL2 cfH2 3 1 3;
+   SOther (KPacket EEthernet exU 4 3); SFrame4 cfL1 cfH2 3 1 5; SOther (KReturn [Some 1]);
+   SOther (KPacket EEthernet [1;2;3] 6 3); SFrame4 cfL2 cfH1 3 0 7].
+
+Ltac cf_link := split; [reflexivity|split; [apply bytes_okb_spec; reflexivity|split;
+  [cbn [length el_tags cfL1 cfL2]; repeat constructor|
+   repeat constructor; cbn [fst snd]; try (left; reflexivity); reflexivity]]].
+Ltac cf_v4 := repeat split; try reflexivity; try discriminate; try (apply bytes_okb_spec; reflexivity).
+Ltac cf_frame4 :=
+  split; [cf_link|split; [cf_v4|split; [vm_compute; reflexivity|split;
+    [cbn [length cut_at]; repeat constructor|
+     split; [vm_compute; reflexivity|split; [vm_compute; discriminate|apply bytes_okb_spec; vm_compute; reflexivity]]]]]].
+
+Example C11_ex_cut_frames_hyp :
+  len exP <= 65535 /\ sumN [1; 1] * 8 <= len exP /\ 0 < sumN [1; 1] /\
+  Forall (sched_ok exIdA (cut_at exP 0 [1; 1])) cfSched /\
+  Defrag.Proofs.view (encode_id exIdA) pool_new = None /\
+  sched_js cfSched = [(2%nat, 1); (1%nat, 3); (1%nat, 5)] ++ [(0%nat, 7)] /\
+  (forall k, (k <= 3)%nat ->
+     ~ Covered exP (map (piece (cut_at exP 0 [1; 1])) (firstn k [2; 1; 1]%nat))) /\
+  Covered exP (map (piece (cut_at exP 0 [1; 1])) ([2; 1; 1] ++ [0])%nat) /\
+  pk_trace pool_new (realize (cut_at exP 0 [1; 1]) cfSched) =
+    Ok [(Some (encode_id exIdA), PNone); (Some (encode_id exIdB), PNone); (Some (encode_id exIdA), PNone);
+        (None, PNone); (Some (encode_id exIdA), PNone); (None, PNone); (None, PNone);
+        (Some (encode_id exIdA), PDone 17 true (map Some exP))].
+Proof.
+  split; [vm_compute; discriminate|]. split; [vm_compute; discriminate|]. split; [reflexivity|].
+  split.
+  { repeat apply Forall_cons; try apply Forall_nil; cbn [sched_ok];
+      try (apply foreignb_spec; vm_compute; reflexivity); cf_frame4. }
+  split; [reflexivity|]. split; [reflexivity|]. split.
+  { intros k Hk (_ & Hc). destruct (Hc 0) as (g & Hg & Hr & _); [vm_compute; reflexivity|].
+    destruct k as [|[|[|[|k]]]]; [| | | |lia]; cbn [firstn map In] in Hg;
+      repeat (destruct Hg as [<-|Hg]; [revert Hr; vm_compute; intros Hr; exact (Hr eq_refl)|]); destruct Hg. }
+  split; [|vm_compute; reflexivity].
+  assert (E : map (piece (cut_at exP 0 [1; 1])) ([2; 1; 1] ++ [0])%nat =
+              [mkFrag 2 false [17;18;19]; mkFrag 1 true [9;10;11;12;13;14;15;16];
+               mkFrag 1 true [9;10;11;12;13;14;15;16]; mkFrag 0 true [1;2;3;4;5;6;7;8]])
+    by (vm_compute; reflexivity).
+  rewrite E. split.
+  - eexists. split; [left; reflexivity|reflexivity].
+  - intros i Hi. change (len exP) with 19 in Hi.
+    destruct (N.ltb_spec i 8); [|destruct (N.ltb_spec i 16)].
+    + eexists. split; [right; right; right; left; reflexivity|]. unfold f_off, f_endp, f_off. cbn [f_fo f_data].
+      change (len [1;2;3;4;5;6;7;8]) with 8. lia.
+    + eexists. split; [right; left; reflexivity|]. unfold f_off, f_endp, f_off. cbn [f_fo f_data].
+      change (len [9;10;11;12;13;14;15;16]) with 8. lia.
+    + eexists. split; [left; reflexivity|]. unfold f_off, f_endp, f_off. cbn [f_fo f_data].
+      change (len [17;18;19]) with 3. lia.
+Qed.
+
+(* IPv6: traffic class 0xAB, flow label 0xCDEF1, identification 0x01020304, reserved bits set; the
+   two frames of exP cut into 16 + 3, last piece first *)
+Definition cfL0 : eth_link := mkEthLink [7;8;9;10;11;12;1;2;3;4;5;6] [].
+Definition cfH6 : v6_fields :=
+  mkV6F 171 843505 9 17 [32;1;13;184;0;0;0;0;0;0;0;0;0;0;0;1] [32;1;13;184;0;0;0;0;0;0;0;0;0;0;0;2]
+        16909060 255 3.
+Example C11_ex_cut_frames_v6 :
+  link_ok cfL0 /\ v6_ok cfH6 /\ Forall fits_v6 (cut_at exP 0 [2]) /\
+  wire_frag_of EEthernet (frame_v6 cfL0 cfH6 (piece (cut_at exP 0 [2]) 1)) 0 =
+    Some (mkWireFrag (id_v6 cfL0 cfH6 0) 2 false (62, 3) false) /\
+  pk_trace pool_new (realize (cut_at exP 0 [2]) [SFrame6 cfL0 cfH6 0 1 1; SFrame6 cfL0 cfH6 0 0 2]) =
+    Ok [(Some (encode_id (id_v6 cfL0 cfH6 0)), PNone);
+        (Some (encode_id (id_v6 cfL0 cfH6 0)), PDone 17 false (map Some exP))].
+Proof.
+  split; [split; [reflexivity|split; [apply bytes_okb_spec; reflexivity|split; [cbn; lia|constructor]]]|].
+  split; [repeat split; try reflexivity; try discriminate; apply bytes_okb_spec; reflexivity|].
+  split.
+  { repeat constructor; try (vm_compute; reflexivity); try (vm_compute; discriminate);
+      apply bytes_okb_spec; vm_compute; reflexivity. }
+  split; vm_compute; reflexivity.
+Qed.
+(* the same with the deliveries given by piece INDEX: all pieces non-empty; the frames of datagram i
+   arrive as ANY list over the indices 0 .. length sizes -- any permutation, any piece repeated any
+   number of times -- whose last element jl is the one index that had not been delivered before:
+   PNone for every earlier frame, P for that one *)
+Theorem C11_cut_frames_any_order : forall P sizes i s pl js0 jl tl,
+  len P <= 65535 -> sumN sizes * 8 <= len P -> sizes <> [] -> Forall (fun n => 0 < n) sizes ->
+  Forall (sched_ok i (cut_at P 0 sizes)) s ->
+  Defrag.Proofs.view (encode_id i) pl = None ->
+  sched_js s = js0 ++ [(jl, tl)] ->
+  ~ In jl (map fst js0) ->
+  (forall j, (j <= length sizes)%nat -> In j (map fst js0 ++ [jl])) ->
+  exists tr, pk_trace pl (realize (cut_at P 0 sizes) s) = Ok tr /\
+    answers_for (encode_id i) tr =
+      map (fun _ => PNone) js0 ++ [PDone (fi_ipn i) (id_is_v4 (fi_ip i)) (map Some P)].
+Proof. exact cut_frames_any_order. Qed.
+Print Assumptions C11_cut_frames_any_order.
+
+Example C11_ex_cut_frames_any_order_hyp :
+  [1; 1] <> [] /\ Forall (fun n => 0 < n) [1; 1] /\
+  sched_js cfSched = [(2%nat, 1); (1%nat, 3); (1%nat, 5)] ++ [(0%nat, 7)] /\
+  ~ In 0%nat (map fst [(2%nat, 1); (1%nat, 3); (1%nat, 5)]) /\
+  (forall j, (j <= length [1; 1])%nat -> In j (map fst [(2%nat, 1); (1%nat, 3); (1%nat, 5)] ++ [0%nat])).
+Proof.
+  split; [discriminate|]. split; [repeat constructor|]. split; [reflexivity|]. split.
+  - cbn [map fst In]. intros [H|[H|[H|[]]]]; discriminate.
+  - intros j Hj. cbn [length] in Hj. cbn [map fst app In].
+    destruct j as [|[|[|j]]]; [right; right; right; left; reflexivity|right; left; reflexivity|left; reflexivity|lia].
+Qed.
+(* ==== round3 c11cut end ==== *)
